@@ -273,6 +273,8 @@ func (w *World) verifyFunc(key string) (fc *FuncCtx) {
 		fc.assume(st, t.S)
 	}
 	fc.oldState = st.clone()
+	// old(e) reads the entry state, not the state object execution goes on mutating
+	fc.bindGlobals(fc.oldState, entryEnv, fc.contract)
 	fc.oldEnv = entryEnv
 	fc.cover(st, "cover.pre", decl, "precondition satisfiable")
 	end := fc.exec(st, decl.Body)
